@@ -16,11 +16,11 @@ ASSUMPTIONS = [
 
 def plan(tier, seed):
   q = tier == "quick"
-  return [{"hashseed": (seed * 31 + i) % 1019, "heap_pad": (i * 331) % 3000, "designs": 30 if q else 300} for i in range(16)]
+  return [{"hashseed": (seed * 31 + i) % 1019, "heap_pad": (i * 331) % 3000, "designs": 30 if q else 300, "banks": 8 if q else 100} for i in range(16)]
 
 
 def thresholds(tier):
-  t = {"designs": 120, "designs_with_2_ff_orders": 60, "register_comparisons": 20000, "ff_preedge_comparisons": 20000, "mode_runs": 1000}
+  t = {"designs": 120, "designs_with_2_ff_orders": 60, "register_comparisons": 20000, "ff_preedge_comparisons": 20000, "mode_runs": 1000, "bank_designs": 6, "bank_register_comparisons": 200}
   if tier == "thorough":
     t = {k: v * 15 for k, v in t.items()}
   return t
@@ -31,8 +31,96 @@ def knobs_for(rng):
           "p_split": 0.2, "p_struct": 0.3, "max_sigs": rng.choice([4, 6, 8]), "expr_depth": 2, "p_if": 0.5, "reset_ff": 0.5, "p_ff_child": rng.choice([0, 0.3]), "p_func": rng.choice([0, 0.3]), "p_shadow": 0.3, "p_subclass": rng.choice([0, 0.5])}
 
 
+# ---------------------------------------------------------------------------
+# parameterised register banks: registers in 1-D / 2-D lists selected by construct() parameters (closure variables),
+# by signals and by loop variables; several instances of ONE class with different parameter values in one design
+# ---------------------------------------------------------------------------
+
+def gen_bank_design(rng):
+  NR, NC = rng.randrange(1, 4), rng.randrange(2, 5)
+  w = rng.choice([4, 8])
+  nb = rng.randrange(2, 5)
+  cols = [rng.randrange(NC) for _ in range(nb)]
+  if len(set(cols)) == 1: cols[-1] = (cols[0] + 1) % NC
+  form = rng.randrange(4)
+  L = ["from pymtl3 import *", "class Bank(Component):", "  def construct(s, col, NR, NC):",
+       f"    s.row = InPort(2); s.din = InPort({w}); s.we = InPort(1)",
+       f"    s.mem = [[Wire({w}) for _ in range(NC)] for _ in range(NR)]",
+       f"    s.vec = [Wire({w}) for _ in range(NC)]",
+       f"    s.out = [OutPort({w}) for _ in range(NR)]", f"    s.vo = OutPort({w})",
+       "    @update_ff", "    def wr():"]
+  if form == 0:
+    L += ["      if s.we:", "        for r in range(NR):", "          if s.row == r:", "            s.mem[r][col] <<= s.din"]
+  elif form == 1:
+    L += ["      for r in range(NR):", "        s.mem[r][col] <<= s.mem[r][col] + s.din"]
+  elif form == 2:
+    L += ["      if s.we: s.mem[0][col] <<= s.din", "      for r in range(1, NR):", "        s.mem[r][col] <<= s.mem[r - 1][col]"]
+  else:
+    L += ["      s.mem[NR - 1][col] <<= s.din ^ s.mem[0][col]"] + (["      for r in range(NR - 1):", "        s.mem[r][col] <<= s.mem[r + 1][col]"] if NR > 1 else [])
+  L += ["    @update_ff", "    def wv():", "      if s.we: s.vec[col] <<= s.vec[col] + s.din"]
+  L += ["    for r in range(NR):", "      s.out[r] //= s.mem[r][col]", "    s.vo //= s.vec[col]"]
+  L += ["class BTop(Component):", "  def construct(s):", f"    s.row = InPort(2); s.din = InPort({w}); s.we = InPort(1)",
+        "    s.b = [" + ", ".join(f"Bank({c}, {NR}, {NC})" for c in cols) + "]",
+        f"    s.out = [[OutPort({w}) for _ in range({NR})] for _ in range({nb})]", f"    s.vo = [OutPort({w}) for _ in range({nb})]",
+        f"    for k in range({nb}):", "      s.b[k].row //= s.row; s.b[k].din //= s.din; s.b[k].we //= s.we", "      s.vo[k] //= s.b[k].vo",
+        f"      for r in range({NR}):", "        s.out[k][r] //= s.b[k].out[r]"]
+  return "\n".join(L) + "\n", {"NR": NR, "NC": NC, "w": w, "cols": cols, "form": form}
+
+
+def bank_reference(cfg, seq):
+  NR, w, form = cfg["NR"], cfg["w"], cfg["form"]
+  m = (1 << w) - 1
+  mem = [0] * NR; vec = 0
+  out = []
+  for (row, din, we) in seq:
+    old = list(mem)
+    if form == 0:
+      if we and row < NR: mem[row] = din
+    elif form == 1:
+      mem = [(old[r] + din) & m for r in range(NR)]
+    elif form == 2:
+      mem = [din if we else old[0]] + [old[r - 1] for r in range(1, NR)]
+    else:
+      mem = [old[r + 1] for r in range(NR - 1)] + [din ^ old[0]]
+    if we: vec = (vec + din) & m
+    out.append((list(mem), vec))
+  return out
+
+
+def run_bank_case(sh, case):
+  from pymtl3 import Bits
+  rng = sh.rng("bank", case)
+  src, cfg = gen_bank_design(rng)
+  mod = G.load_source(src, "c07b")
+  try:
+    seq = [(rng.randrange(4), rng.getrandbits(cfg["w"]), rng.getrandbits(1)) for _ in range(rng.randrange(6, 14))]
+    exp = bank_reference(cfg, seq)
+    for mode in ("default", "simple", "mamba", "unroll"):
+      top = mod.BTop()
+      try:
+        simmon.apply_mode(top, mode, rng); top.sim_reset()
+      except Exception as e:
+        sh.violation("bank-design-not-simulatable", {"mode": mode, "error": repr(e)[:300], "source": src}, case=("bank", case)); continue
+      for cyc, (row, din, we) in enumerate(seq):
+        top.row @= row; top.din @= din; top.we @= we
+        top.sim_tick()
+        for k in range(len(cfg["cols"])):
+          got = ([int(top.out[k][r]) for r in range(cfg["NR"])], int(top.vo[k]))
+          sh.count("bank_register_comparisons", cfg["NR"] + 1)
+          if got != exp[cyc]:
+            sh.violation("parameterised-register-bank-differs-from-next-state-function", {"mode": mode, "cycle": cyc, "bank": k, "column": cfg["cols"][k],
+                         "got": got, "expected": exp[cyc], "config": cfg, "source": src}, case=("bank", case))
+            return
+      sh.count("bank_mode_runs")
+    sh.count("bank_designs"); sh.fp("bank", cfg["form"], cfg["NR"], cfg["NC"], tuple(cfg["cols"]))
+  finally:
+    G.unload(mod)
+
+
 def run_shard(sh):
   q = sh.tier == "quick"
+  for case in range(sh.params.get("banks", 8)):
+    run_bank_case(sh, case)
   for case in range(sh.params["designs"]):
     if sh.only is not None and str(case) != str(sh.only).strip('"'):
       continue
